@@ -254,7 +254,12 @@ func pureCalls() (all []pureCall, core []pureCall) {
 		C(Q("Copy", func(p *canvas.Path, a *args) { p.Copy() })),
 		Q("CCW", func(p *canvas.Path, a *args) { p.CCW() }),
 		Q("Filling", func(p *canvas.Path, a *args) { p.Filling(canvas.NonZero); p.Filling(canvas.EvenOdd) }),
-		Q("Coords", func(p *canvas.Path, a *args) { p.Coords(); p.CoordDirections() }),
+		C(Q("Coords", func(p *canvas.Path, a *args) {
+			// one direction per coordinate (Markers and the SVG reader's markers index both alike)
+			if nc, nd := len(p.Coords()), len(p.CoordDirections()); !p.Empty() && !p.HasSubpaths() && nc != nd {
+				panic(fmt.Sprintf("Coords() has %d points, CoordDirections() %d directions", nc, nd))
+			}
+		})),
 		Q("Segments", func(p *canvas.Path, a *args) {
 			n := len(p.Segments())
 			for i := 0; i < n; i++ {
@@ -279,10 +284,11 @@ func pureCalls() (all []pureCall, core []pureCall) {
 			p.Same(q)
 			q.Same(p)
 		}),
-		X("Markers", func(p *canvas.Path, a *args) {
+		C(Q("Markers", func(p *canvas.Path, a *args) {
 			m := a.path(partnerOpen(), "argument")
 			p.Markers(m, m, m, true)
-		}),
+			p.Markers(nil, nil, m, false)
+		})),
 		X("Clip", func(p *canvas.Path, a *args) { p.Clip(0.5, 0.5, 1.5, 1.5) }),
 		X("FastClip", func(p *canvas.Path, a *args) { p.FastClip(0.5, 0.5, 1.5, 1.5) }),
 		X("SimplifyVisvalingamWhyatt", func(p *canvas.Path, a *args) { p.SimplifyVisvalingamWhyatt(0.1) }),
